@@ -2,9 +2,11 @@ package px
 
 import (
 	"bytes"
+
 	"encoding/gob"
 	"encoding/json"
 	"fmt"
+	"github.com/DavidGamba/go-getoptions"
 	"os"
 	"os/exec"
 	"strings"
@@ -30,6 +32,7 @@ type DriverReq struct {
 	Dispatch bool     `json:"dispatch"`
 	CompLine string   `json:"comp_line"`
 	Zsh      bool     `json:"zsh"`
+	Sections []int    `json:"sections,omitempty"` // Help(sections...) with this list
 }
 
 // Observe - one execution of a request, canonical JSON of what was observed.
@@ -39,7 +42,11 @@ func Observe(q *DriverReq) string {
 	case "parse":
 		t.Parse = Run(q.Prog, q.Argv, q.Dispatch)
 	case "help":
-		t.Help = refHelp(q.Prog, q.Argv)
+		if len(q.Sections) > 0 {
+			t.Help = refHelpSections(q.Prog, q.Argv, q.Sections)
+		} else {
+			t.Help = refHelp(q.Prog, q.Argv)
+		}
 	case "comp":
 		t.Comp = RunCompletion(q.Prog, q.CompLine, q.Zsh, q.Argv)
 	}
@@ -111,9 +118,13 @@ func c20Prog(r *Rng, idx int) *Prog {
 			nReq++
 		}
 	}
+	validDone := false
 	for _, o := range p.Root.Opts {
 		if o.Kind.IsStr() && !o.Kind.IsMulti() && r.Chance(1, 2) {
 			o.Suggested = []string{"sugb", "suga", "other", "sugc"}
+		} else if o.Kind.IsStr() && !validDone && o.Env == "" && !o.Required {
+			o.Valid = []string{"debug", "info", "warn", "error", "info", "fatal", "debug"} // repeated entries
+			validDone = true
 		}
 	}
 	for _, c := range p.Root.Cmds {
@@ -181,6 +192,19 @@ func init() {
 					toks = strings.Split(path, "/")
 				}
 				add("help", &DriverReq{Prog: p, Kind: "help", Argv: toks})
+			}
+			// (e2) Help with explicit section lists (option list in front of the synopsis, a section twice)
+			add("help-sections", &DriverReq{Prog: p, Kind: "help", Argv: nil, Sections: []int{5, 3, 4}})
+			add("help-sections", &DriverReq{Prog: p, Kind: "help", Argv: nil, Sections: []int{5, 5, 2, 3}})
+			if len(cmds) > 0 {
+				add("help-sections", &DriverReq{Prog: p, Kind: "help", Argv: []string{cmds[0]}, Sections: []int{5, 3}})
+			}
+			// (e3) an invalid value for an option whose valid-values list has repeated entries
+			for _, o := range p.Root.Opts {
+				if len(o.Valid) > 0 {
+					add("invalid-value", &DriverReq{Prog: p, Kind: "parse", Argv: []string{"--" + o.Name + "=not-valid"}})
+					break
+				}
 			}
 			// (f) completion
 			for _, zsh := range []bool{false, true} {
@@ -284,4 +308,21 @@ func WriteDriverReq(path string, q *DriverReq) error {
 		return err
 	}
 	return os.WriteFile(path, buf.Bytes(), 0o644)
+}
+
+// refHelpSections - Help(sections...) of an identically built program parked on the node reached by path tokens.
+func refHelpSections(p *Prog, pathToks []string, sections []int) string {
+	b := Build(p)
+	defer b.Cleanup()
+	if len(pathToks) > 0 {
+		func() {
+			defer func() { recover() }()
+			b.Opt.Parse(pathToks)
+		}()
+	}
+	var ss []getoptions.HelpSection
+	for _, x := range sections {
+		ss = append(ss, getoptions.HelpSection(x))
+	}
+	return b.Opt.Help(ss...)
 }
